@@ -186,8 +186,13 @@ def gen_spec(rng: random.Random, S=None, A=None, E=None, kind="random", R=None, 
         initpol = rng.random() < 0.3
     if prob_as_array is None:
         prob_as_array = rng.random() < 0.4
+    init_list = [float(rng.randint(-R, R)) for _ in range(S)] if init else None
+    # dtype of the initial estimate returned by `initial_value`: float64, or an integer / float32 estimate (`return 0`, an integer heuristic)
+    u2 = rng.random()
+    init_dtype = ("int32" if u2 < 0.35 else "float32" if u2 < 0.5 else "float64") if init else ("pyint0" if u2 < 0.3 else "float64")
+    tags.append("init-" + init_dtype)
     spec = dict(smins=smins, smaxs=smaxs, amins=amins, amaxs=amaxs, emins=emins, emaxs=emaxs, nxt=nxt, rew=rew, prob=prob,
-                init=[float(rng.randint(-R, R)) for _ in range(S)] if init else None,
+                init=init_list, init_dtype=init_dtype,
                 initpol=[rng.randrange(A) for _ in range(S)] if initpol else None,
                 prob_as_array=prob_as_array, rew_dtype=rew_dtype)
     spec["_tags"] = tags + [f"S{S}", f"A{A}", f"E{E}", f"sdim{len(smins)}", f"adim{len(amins)}", f"edim{len(emins)}",
